@@ -98,4 +98,7 @@ def fromGeoJSON (ty : String) (c : Tree F) : Except Err (Geom F) :=
       else .error .invalid
   else .error .unsupported
 
+def invalidGeometryErrorText : String := "geojson: invalid geometry"
+def unsupportedGeometryErrorText (ty : String) : String := "geojson: unsupported geometry type " ++ ty
+
 end GeomV.C06.Gen
